@@ -3,6 +3,7 @@ package main
 import (
 	"fmt"
 	"sort"
+	"strconv"
 	"strings"
 )
 
@@ -450,7 +451,32 @@ func checkC13(ctx *Ctx) *Result {
 	pp := x2.Summarize(pf)
 	r.Paths += len(pp)
 	r.fn(funcName(pf))
-	capKey := fmt.Sprintf("bin:<(%d, len:builtin.len(param:str))", 64+3+253+1+5)
+	// the request-side length cap must admit every origin an accepted pattern
+	// can denote: longest scheme + "://" + longest domain + its optional
+	// trailing dot (absolute domain name, accepted by the IDNA profile and not
+	// counted in maxHostLen) + ":" + longest port
+	longest := int64(0)
+	for _, c := range []string{"maxSchemeLen", "maxHostLen", "maxPortLen"} {
+		v, err := p.ConstInt(pkgOrigins, c)
+		if err != nil {
+			r.undecided("R13.5", c, err.Error())
+		}
+		longest += v
+	}
+	longest += int64(len("://")) + 1 + 1
+	capVal := int64(-1)
+	for _, pa := range pp {
+		for _, a := range pa.Atoms {
+			if a.T.Op == "bin" && a.T.Name == "<" && a.T.Args[0].Op == "const" && a.T.Args[1].Key() == "len:builtin.len(param:str)" {
+				if v, err := strconv.ParseInt(a.T.Args[0].Name, 10, 64); err == nil {
+					capVal = v
+				}
+			}
+		}
+	}
+	r.check(capVal >= longest, "R13.5", "Parse: length cap admits the longest origin an accepted pattern denotes", p.Pos(pf.Pos()),
+		fmt.Sprintf("Parse rejects origins longer than %d bytes, but an accepted pattern can be %d bytes long (64-byte scheme, 253-byte domain plus trailing dot, 5-digit port): presenting it verbatim as an Origin is refused", capVal, longest), 1)
+	capKey := fmt.Sprintf("bin:<(%d, len:builtin.len(param:str))", capVal)
 	S := "call:origins.parseScheme(param:str)"
 	SEP := `call:strings.CutPrefix(` + S + `#1, "://")`
 	FH := "call:origins.fastParseHost(" + SEP + "#0)"
